@@ -23,7 +23,7 @@ Definition abs (s : store) (a : agent) : view :=
 Definition hook_keys (h : hook) : list key :=
   match h with
   | HSync e t => [(t, cEnc); (t, cHead); (t, cBuf)]
-  | HShare p others => flat_map (fun o => [(o, cHenc); (o, cEnc)]) others
+  | HShare p others => flat_map (fun o => [(o, cHenc); (o, cEnc); (o, cBuf)]) others
   | HBandit => [kExt]
   end.
 Definition resync_keys (r : registry) : list key := flat_map hook_keys (r_hooks r).
